@@ -80,6 +80,10 @@ def _plan(draw, max_rows):
             "op": draw(st.sampled_from(OPS))}
     draw(gen.decorate(plan["left"]))
     draw(gen.decorate(plan["right"]))
+    if draw(st.integers(0, 5)) == 0:
+        plan["failed_first"] = True
+    if draw(st.integers(0, 5)) == 0:
+        plan["poke_then_repeat"] = True
     if mixed:
         plan["mixed"] = True
         plan["op"] = draw(st.sampled_from(["left", "inner", "semi", "anti"]))
@@ -156,7 +160,36 @@ class Violation(Violation):                    # prefixes the phase to every mes
 def check(plan, ctx):
     L = build.frame(plan["left"], rid="_la_")
     R = build.frame(plan["right"], rid="_rb_")
-    _check_join(plan, L, R, ctx)
+    if plan.get("failed_first"):
+        # history: the same call failed a moment ago (misspelt key): it must have left both frames as they were,
+        # and the correct call that follows must not notice
+        lb, rb = build.snap_frame(L), build.snap_frame(R)
+        try:
+            getattr(L, f"{plan['op']}_join")(R, "no such key")
+        except Exception:
+            pass
+        if build.snap_frame(L) != lb or build.snap_frame(R) != rb:
+            raise Violation(f"a failing {plan['op']}_join changed an operand",
+                            left=list(dict.keys(L)), right=list(dict.keys(R)))
+        ctx.cls("after_a_failed_join")
+    out = _check_join(plan, L, R, ctx)
+    if plan.get("poke_then_repeat") and out is not None and out.nrow:
+        # history: the caller fills the joined columns of the result in place; the same join of equal frames built
+        # afresh must still see missing values where nothing matches
+        for cn in dict.keys(out):
+            if cn not in dict.keys(L):
+                col = out[cn]
+                if col.flags.writeable:
+                    try:
+                        col[:] = col[0] if not col.is_na()[0] else {"f": 7.5, "i": 7, "O": "poked", "T": "poked", "b": True}.get(col.dtype.kind, col[0])
+                    except Exception:
+                        pass
+        ctx.cls("joined_again_after_filling_the_result_in_place")
+        _PHASE[0] = "after the previous result was filled in place: "
+        try:
+            _check_join(plan, build.frame(plan["left"], rid="_la_"), build.frame(plan["right"], rid="_rb_"), ctx)
+        finally:
+            _PHASE[0] = ""
     if plan.get("edits"):
         p2 = dict(plan)
         for side in ("left", "right"):
@@ -246,6 +279,7 @@ def _check_join(plan, L, R, ctx):
 
     if build.snap_frame(L) != lb or build.snap_frame(R) != rb:
         raise Violation(f"{op}_join changed an operand")
+    return out
 
 
 def _check_full(plan, out, ls, rs, lnames, rnames, by1, by2, lk, rk, nl, nr):
